@@ -273,7 +273,6 @@ func main() {
 	}
 	var sb strings.Builder
 	sb.WriteString("From Coq Require Import List NArith String.\nFrom MM Require Import Lib.Bytes Model.ExitPolicy.\nImport ListNotations.\nLocal Open Scope string_scope.\n")
-	sb.WriteString("Definition cases : list case := \n" + policy.CoqListNL(e.coq) + ".\n")
-	sb.WriteString("Definition M := Eval vm_compute in mismatches cases.\nPrint M.\n")
+	sb.WriteString(policy.ChunkedCases("cases", "case", "mismatches_from", e.coq, 400))
 	c.WriteCasesV("cases.v", sb.String())
 }
